@@ -548,7 +548,14 @@ impl OcflRepo {
     ) -> Result<()> {
         self.ensure_open()?;
 
-        let object_id = object_id.trim();
+        // Every other operation addresses the object by the ID exactly as it is given, so the ID
+        // must be stored as it is given
+        if object_id.trim().is_empty() {
+            return Err(RocflError::InvalidValue(
+                "Object IDs may not be blank".to_string(),
+            ));
+        }
+
         let repo_version = self.spec_version.read().unwrap().clone();
 
         let object_version = if let Some(object_version) = spec_version {
